@@ -47,7 +47,7 @@ type c10Deposit struct {
 func (c10Sys) Root() *c10State {
 	w := world.NewL1(world.L1Options{Accounts: map[string]sdk.Coins{
 		"proposer": nil, "challenger": nil, "stranger": nil, "creator": nil, "submitter": nil,
-		"alice": sdk.NewCoins(world.Coin("uxx", 100), world.Coin("uyy", 100)),
+		"alice": sdk.NewCoins(world.Coin("uxx", 100), world.Coin("uyy", 100), world.Coin(c10LongDenomA, 100), world.Coin(c10LongDenomB, 100)),
 	}})
 	res := w.Deliver(w.Ctx, ophosttypes.NewMsgCreateBridge(world.Addr("creator").String(), world.BridgeConfig("proposer", "challenger", 10*time.Second)))
 	if !res.OK() {
@@ -65,8 +65,14 @@ func (c10Sys) Digest(s *c10State) [32]byte { return s.w.Digest(s.ctx) }
 
 const c10LongTo = "init1qqqqqqqqqqqqqqqqqqqqqqqqqqqqqqqqqqqqqqqqqqqqqqqqqqqqqqqqqqqqqqqqqqqqqqqqqqqqqq/with spaces and ünïcode"
 
+// two legal long denoms (an ibc-style hash path) that agree in their first 80 characters
+const c10LongDenomA = "ibc/27394FB092D2ECCD56123C74F36E4C1F926001CEADA9CA97EA622B25F41E5EB2/wrapped-usdc"
+const c10LongDenomB = "ibc/27394FB092D2ECCD56123C74F36E4C1F926001CEADA9CA97EA622B25F41E5EB2/wrapped-usdt"
+
 func (c10Sys) Letters(s *c10State) []engine.Letter {
 	var ls []engine.Letter
+	ls = append(ls, engine.Letter{Name: "Deposit(b1,1 long-denom-A,to=short)", Data: c10Deposit{1, c10LongDenomA, 1, "l2addr", nil, "alice"}})
+	ls = append(ls, engine.Letter{Name: "Deposit(b1,1 long-denom-B,to=short)", Data: c10Deposit{1, c10LongDenomB, 1, "l2addr", nil, "alice"}})
 	if !s.b[2].Exists {
 		ls = append(ls, engine.Letter{Name: "CreateBridge", Data: c10Create{}})
 	}
@@ -220,7 +226,7 @@ func (c10Sys) Check(s *c10State) *engine.Violation {
 		}
 		// the by-denom queries agree with the model for every denom of the menu, recorded or not,
 		// and a one-by-one paged walk lists the same pairs
-		for _, den := range []string{"uxx", "uyy", "uzz"} {
+		for _, den := range []string{"uxx", "uyy", "uzz", c10LongDenomA, c10LongDenomB} {
 			l2 := ref.L2Denom(id, den)
 			r1, err := s.w.Q.TokenPairByL1Denom(s.ctx, &ophosttypes.QueryTokenPairByL1DenomRequest{BridgeId: id, L1Denom: den})
 			if err != nil || r1.TokenPair.L1Denom != den || r1.TokenPair.L2Denom != l2 {
@@ -271,7 +277,7 @@ func init() {
 				return res
 			}
 			res.Absorb("c10", rep)
-			res.Coverage["alphabet"] = "CreateBridge (ids 2,3 created mid-history); Deposit(b∈{1,2,3}, denom∈{uxx,uyy}, amt∈{0,1}, (to,data)∈{(short,∅),(long non-ASCII,bytes)}, sender∈{funded, unfunded})"
+			res.Coverage["alphabet"] = "CreateBridge (ids 2,3 created mid-history); Deposit(b∈{1,2,3}, denom∈{uxx,uyy}, amt∈{0,1}; on bridge 1 also two 82-character denoms that share their first 80 characters; (to,data)∈{(short,∅),(long non-ASCII,bytes)}, sender∈{funded, unfunded})"
 			res.Coverage["oracle"] = "accepted ⇒ bridge exists, response sequence = per-bridge model counter, exactly one initiate_token_deposit event whose 8 attributes equal the request, sender/escrow balances moved by the amount, pair = independent L2-denom derivation and never changes; NextL1Sequence / TokenPairs (whole and paged) / TokenPairByL1Denom / TokenPairByL2Denom queries = model in every state; a created bridge has nothing pre-recorded; rejected ⇒ digest unchanged"
 			res.Assumptions = []string{"3 bridge ids, 2 denoms, amounts 0 and 1"}
 			for _, k := range []string{"Deposit/accepted", "Deposit/rejected", "CreateBridge/accepted"} {
